@@ -56,3 +56,8 @@ static parsec_key_t ref_make_key(const REF_TP_T *tp, int c, const parsec_assignm
 static int ref_final_write(const int *g, int c, const int *p, int f, int *co, int *which)
 { (void)g; (void)c; (void)f; co[0] = p[0]; co[1] = p[1]; *which = 0; return 1; }
 static parsec_data_collection_t *ref_collection(REF_TP_T *tp, int which) { (void)which; return tp->super._g_descA; }
+static parsec_key_t ref_key_of(const REF_TP_T *tp, const int *g, int c, const int *p)
+{
+    if (c == 0) { __parsec_between_T_parsec_assignment_t a = { 0 }; ref_T_fill(&a, g, p); return __jdf2c_make_key_T((const parsec_taskpool_t *)tp, (const parsec_assignment_t *)&a); }
+    { __parsec_between_U_parsec_assignment_t a = { 0 }; ref_U_fill(&a, g, p); return __jdf2c_make_key_U((const parsec_taskpool_t *)tp, (const parsec_assignment_t *)&a); }
+}
